@@ -2,6 +2,9 @@ package main
 
 import (
 	"fmt"
+	"go/ast"
+	"go/token"
+	"go/types"
 	"sort"
 	"strings"
 )
@@ -316,4 +319,179 @@ func ruleStartupGate(c *Ctx) {
 		}
 	}
 	c.check(len(extra) == 0, "hic/gate-bypass", gateLoads[0].Node.Pos(), fmt.Sprintf("bypass set %v ⊆ {output ping echo auth}", bypass), fmt.Sprintf("commands %v are served while the dataset is loading", extra))
+}
+
+// ---------------------------------------------------------------------------
+// R7.no-stale-decision: check-then-act across a lock release
+
+func init() {
+	register(&Rule{ID: "R7.no-stale-decision", Props: []string{"C07", "C14"}, Floor: 3,
+		Text: "in a function that holds Server.mu in two separate critical sections, no value that was obtained from guarded state in the earlier section is passed, after the lock was released, to a call that mutates persistent state in a later section (decide and act must be one critical section: another client's write can land in between and the stale decision is then applied and logged after it)",
+		Run:  ruleNoStaleDecision})
+}
+
+func ruleNoStaleDecision(c *Ctx) {
+	a := c.muLK()
+	if a.err != "" {
+		c.und("engine", 0, "%s", a.err)
+		return
+	}
+	lk := a.lk
+	guardedAll := map[string]bool{"Collection": true}
+	for _, n := range serverGuardedNames {
+		guardedAll["Server."+n] = true
+	}
+	n := 0
+	for _, u := range lk.units {
+		info := u.Info()
+		// lock operations directly in this unit's body, in source order
+		type op struct {
+			pos  token.Pos
+			kind lockKind
+		}
+		var ops []op
+		inspectNoLit(u.Body, func(x ast.Node) bool {
+			if d, ok := x.(*ast.DeferStmt); ok {
+				_ = d
+				return false
+			}
+			if call, ok := x.(*ast.CallExpr); ok {
+				if k := c.serverMuOp(info, call); k != lkNone {
+					ops = append(ops, op{call.Pos(), k})
+				}
+			}
+			return true
+		})
+		acq := 0
+		for _, o := range ops {
+			if o.kind == lkLock || o.kind == lkRLock {
+				acq++
+			}
+		}
+		if acq < 2 {
+			continue
+		}
+		n++
+		// sections: [acquire_i, release_i]
+		type section struct{ from, to token.Pos }
+		var secs []section
+		var cur *section
+		for _, o := range ops {
+			switch o.kind {
+			case lkLock, lkRLock:
+				secs = append(secs, section{from: o.pos, to: u.Body.End()})
+				cur = &secs[len(secs)-1]
+			case lkUnlock, lkRUnlock:
+				if cur != nil {
+					cur.to = o.pos
+					cur = nil
+				}
+			}
+		}
+		inSec := func(p token.Pos) int {
+			for i, s := range secs {
+				if s.from <= p && p <= s.to {
+					return i
+				}
+			}
+			return -1
+		}
+		// variables assigned inside a section from an expression that reads guarded state
+		readsGuarded := func(e ast.Node) bool {
+			hit := false
+			ast.Inspect(e, func(x ast.Node) bool {
+				if hit {
+					return false
+				}
+				switch y := x.(type) {
+				case *ast.CallExpr:
+					if f := callee(info, y); f != nil {
+						if cu := lk.ofDecl[f]; cu != nil && len(lk.reads(cu, guardedAll)) > 0 {
+							hit = true
+						}
+					}
+					for _, acc := range lk.spec.Classify(u, y, ctxRead) {
+						if guardedAll[acc.Loc] {
+							hit = true
+						}
+					}
+				case *ast.SelectorExpr:
+					for _, acc := range lk.spec.Classify(u, y, ctxRead) {
+						if guardedAll[acc.Loc] {
+							hit = true
+						}
+					}
+				}
+				return true
+			})
+			return hit
+		}
+		derived := map[types.Object]int{} // var → section index it was computed in
+		inspectNoLit(u.Body, func(x ast.Node) bool {
+			as, ok := x.(*ast.AssignStmt)
+			if !ok {
+				return true
+			}
+			si := inSec(as.Pos())
+			if si < 0 {
+				return true
+			}
+			tainted := false
+			for _, r := range as.Rhs {
+				if readsGuarded(r) {
+					tainted = true
+				}
+			}
+			if !tainted {
+				return true
+			}
+			for _, l := range as.Lhs {
+				if id, ok := l.(*ast.Ident); ok && id.Name != "_" {
+					if o := info.ObjectOf(id); o != nil {
+						if _, isErr := o.Type().Underlying().(*types.Interface); isErr && o.Name() == "err" {
+							continue
+						}
+						derived[o] = si
+					}
+				}
+			}
+			return true
+		})
+		bad := false
+		inspectNoLit(u.Body, func(x ast.Node) bool {
+			call, ok := x.(*ast.CallExpr)
+			if !ok {
+				return true
+			}
+			sj := inSec(call.Pos())
+			if sj < 0 {
+				return true
+			}
+			f := callee(info, call)
+			if f == nil {
+				return true
+			}
+			cu := lk.ofDecl[f]
+			if cu == nil || len(lk.effects(cu, persistLocs)) == 0 {
+				return true
+			}
+			for _, arg := range call.Args {
+				ast.Inspect(arg, func(y ast.Node) bool {
+					if id, ok := y.(*ast.Ident); ok {
+						if si, ok := derived[info.ObjectOf(id)]; ok && si < sj {
+							bad = true
+							c.bad(u.Name+"→"+f.Name()+"("+id.Name+")", call.Pos(),
+								"%s was computed from guarded state in an earlier critical section of Server.mu and is passed to %s, which mutates persistent state, after the lock was released and re-acquired: a write by another client in between is overwritten by the stale decision", id.Name, f.Name())
+						}
+					}
+					return true
+				})
+			}
+			return true
+		})
+		if !bad {
+			c.ok(u.Name, u.Pos(), true, "%d critical sections of Server.mu; nothing computed from guarded state in one of them drives a persistent mutation in a later one", len(secs))
+		}
+	}
+	c.stat("units_with_several_critical_sections", n)
 }
